@@ -29,8 +29,9 @@ def mk_type(kind):
         return Type('CHOICE', root=[Member('cx', Type('CHOICE', root=[Member('cy', Type('BOOLEAN')), Member('cz', Type('NULL'))])), Member('cw', Type('REAL'))])
 
 
-def mk_module(container, default, members):
-    """members: list of (kind, tag, marker)"""
+def mk_module(container, default, members, nest=None):
+    """members: list of (kind, tag, marker); nest: the container is an inline member ('member') or the element of a
+    SEQUENCE OF ('seqof') of an outer type without manual tags instead of being the named type itself"""
     ms = []
     for i, (kind, tag, marker) in enumerate(members):
         t = mk_type(kind)
@@ -44,6 +45,10 @@ def mk_module(container, default, members):
     if container == 'SEQUENCE':
         ms.append(Member('last', Type('OCTET STRING')))
     types['T'] = Type(container, root=ms)
+    if nest == 'member':
+        types['T'] = Type('SEQUENCE', root=[Member('id', Type('INTEGER')), Member('body', types['T'])])
+    elif nest == 'seqof':
+        types['T'] = Type('SEQUENCE OF', elem=types['T'])
     types['RI'] = Type('INTEGER')
     types['RC'] = Type('CHOICE', root=[Member('ra', Type('INTEGER')), Member('rb', Type('NULL'))])
     return Module('M', default, types)
@@ -65,14 +70,25 @@ def enumerate_modules(tier):
                         ok = False
                 if ok:
                     out.append((container, default, [a, b]))
+    # the same containers one level down (inline member / SEQUENCE OF element of an outer type that has no manual tags):
+    # each inline type takes its own automatic-tagging decision and must be checked in its own right
+    nested = []
+    red = ('INTEGER', 'BOOLEAN', 'CH')
+    for container, default, members in out:
+        if tier == 'quick' and (default != 'AUTOMATIC' or any(k not in red for k, _, _ in members)):
+            continue
+        nested.append((container, default, members, 'member'))
+        if tier != 'quick':
+            nested.append((container, default, members, 'seqof'))
+    out = [o + (None,) for o in out] + nested
     if tier != 'quick':
         # width 3 for the SEQUENCE optional-run rule and for CHOICE, over a reduced alphabet
         small = [(k, tg, mk) for k in ('INTEGER', 'BOOLEAN', 'CH') for tg in (None, (2, 0, None), (2, 1, None)) for mk in ('mandatory', 'OPTIONAL')]
         for default in ('EXPLICIT', 'AUTOMATIC'):
             for a, b, c in itertools.product(small, small, small):
-                out.append(('SEQUENCE', default, [a, b, c]))
+                out.append(('SEQUENCE', default, [a, b, c], None))
             for a, b, c in itertools.product([s for s in small if s[2] == 'mandatory'], repeat=3):
-                out.append(('CHOICE', default, [a, b, c]))
+                out.append(('CHOICE', default, [a, b, c], None))
     return out
 
 
@@ -124,16 +140,19 @@ def run(args):
         return r.returncode, r.stderr.decode(errors='replace')[-600:], wrote
 
     items = []
-    for container, default, members in mods:
-        mod = mk_module(container, default, members)
+    for container, default, members, nest in mods:
+        mod = mk_module(container, default, members, nest)
         try:
             legal = T.legal(mod)
         except Exception:
             stats['ref_undefined'] += 1
             continue
-        label = '%s/%s/%s' % (container, default, ';'.join('%s,%s,%s' % (k, 'none' if tg is None else '%d.%d.%s' % tg, mk) for k, tg, mk in members))
+        label = '%s%s/%s/%s' % (container, ('@' + nest) if nest else '', default, ';'.join('%s,%s,%s' % (k, 'none' if tg is None else '%d.%d.%s' % tg, mk) for k, tg, mk in members))
         items.append((module_text(mod), legal, label))
     for name, text, ok in FAULTS:
+        items.append((text, ok, 'fault:' + name))
+    from gen import faults
+    for name, text, ok in faults.fault_modules(args.tier):
         items.append((text, ok, 'fault:' + name))
     with ThreadPoolExecutor(build.JOBS) as ex:
         results = list(ex.map(one, list(enumerate(items))))
@@ -166,8 +185,7 @@ def run(args):
     cov = dict(evaluations=stats['evaluations'], distinct_nontrivial=len(distinct), programs=stats['evaluations'],
                rule='every CHOICE / SET / SEQUENCE with two members (thorough: plus three-member SEQUENCE and CHOICE over a reduced alphabet) whose members range over '
                     'type {INTEGER, BOOLEAN, ref->INTEGER, inline untagged CHOICE, ref->CHOICE, CHOICE-in-CHOICE} x tag {none,[0],[1],[0] EXPLICIT,[0] IMPLICIT,[APPLICATION 0]} x '
-                    'marker {mandatory, OPTIONAL, DEFAULT} x module default {EXPLICIT, IMPLICIT, AUTOMATIC}, plus the single-fault catalogue (duplicate identifier, duplicate '
-                    'enumeration name/value, dangling reference). Oracle: asn1c -P exits 0 <=> ref.tags.legal (X.680 25.6, 27.3, 29.3 looking through untagged CHOICEs and references, '
+                    'marker {mandatory, OPTIONAL, DEFAULT} x module default {EXPLICIT, IMPLICIT, AUTOMATIC}, also one level down as inline member / SEQUENCE OF element of an outer type without manual tags (quick: AUTOMATIC default, reduced member alphabet), plus the single-fault catalogue, enumerated by gen/faults.py: for SEQUENCE/SET/CHOICE every layout of 1-3 root components, extension marker, 0-2 additions and second root x every pair of positions given the same identifier x a dangling reference at every position, the same inside nested and SEQUENCE OF scopes, ENUMERATED names and values at every pair of positions over root/extension, named numbers/bits, duplicate type name; every layout also unmodified as an accepted control. Oracle: asn1c -P exits 0 <=> ref.tags.legal (X.680 25.6, 27.3, 29.3 looking through untagged CHOICEs and references, '
                     'after automatic tagging); a rejection carries a diagnostic and a -D run writes no file; never a signal. non-trivial = modules expected to be rejected',
                samples=samples, stats=dict(stats), trusted_base=['ref/tags.py distinct-tag rules'])
     return chk.finish(cov)
